@@ -24,22 +24,45 @@ impl ImmutableTrees {
 /// is not one of the ids in use when the generator was created, and is different from every id returned before.
 /// "Returned before" needs ghost state that the real `&self` signature does not carry: rule R12 threads it through
 /// the `&mut TmpNodes` in scope (`X.concurrent_node_ids.next()` -> `X.concurrent_node_ids.next_g_(tmp_nodes)`).
+/// Assumption A5 (build-level, not proved): while a generator that `covers(i)` is alive, every tree id of index i in the
+/// database was either present when it was created or was issued by it. Hence an id it returns now is not a tree key of the
+/// current view (next_v_), nor of the view a staging area was created under (next_g_, through TmpNodes::taken).
 #[verifier::external_body]
 pub struct ConcurrentNodeIds { x: u8 }
 impl ConcurrentNodeIds {
     pub uninterp spec fn used0(&self) -> Set<u32>;
+    /// the generator was created from all the tree ids of index i (established by axiom_generator_covers at its creation)
+    pub uninterp spec fn covers(&self, i: u16) -> bool;
+    #[verifier::external_body]
+    pub fn new(used: RoaringBitmap) -> (r: ConcurrentNodeIds) ensures r.used0() == used@ { unimplemented!() }
     #[verifier::external_body]
     pub fn next_g_(&self, tmp: &mut TmpNodes) -> (r: Result<u32>)
         ensures
-            final(tmp).tv() == old(tmp).tv(), final(tmp).rm() == old(tmp).rm(),
+            final(tmp).tv() == old(tmp).tv(), final(tmp).rm() == old(tmp).rm(), final(tmp).taken() == old(tmp).taken(),
             match r {
                 // A2: the tree-id space is not exhausted (id != u32::MAX needs fewer than 2^32 - 1 allocated tree ids)
                 Ok(id) => id != u32::MAX && !self.used0().contains(id) && !old(tmp).allocated().contains(id) && final(tmp).allocated() == old(tmp).allocated().insert(id)
+                    && (forall|i: u16| #![trigger self.covers(i)] self.covers(i) ==> !(old(tmp).taken())(i).contains(id))
                     && final(tmp).allocated().len() <= 0x1_0000_0000,   // a set of u32
                 Err(e) => e == Error::DatabaseFull && final(tmp).allocated() == old(tmp).allocated(),
             }
     { unimplemented!() }
+    #[verifier::external_body]
+    pub fn next_v_(&self, txn: &Txn) -> (r: Result<u32>)
+        ensures
+            match r {
+                Ok(id) => id != u32::MAX && !self.used0().contains(id)
+                    && (forall|i: u16| #![trigger self.covers(i)] self.covers(i) ==> !txn.view().contains_key(tkey(i, id))),
+                Err(e) => e == Error::DatabaseFull,
+            }
+    { unimplemented!() }
 }
+/// A5, creation side: a generator built from (a superset of) all the tree ids of index i covers index i
+#[verifier::external_body]
+pub proof fn axiom_generator_covers(g: &ConcurrentNodeIds, v: DbView, i: u16)
+    requires forall|id: u32| #![trigger v.contains_key(tkey(i, id))] v.contains_key(tkey(i, id)) ==> g.used0().contains(id)
+    ensures g.covers(i)
+{ }
 pub struct FrozzenReader<'a> { pub leafs: &'a ImmutableLeafs, pub trees: &'a ImmutableTrees, pub concurrent_node_ids: &'a ConcurrentNodeIds }
 
 pub trait Rng { }
